@@ -281,13 +281,15 @@ def assemble(unit, repo):
                     body = body[:m.start()] + body[j:]
             substituted = []
             for old, new in val.get("subst", []):
-                n = body.count(old)
+                n = body.count(old) + sig_v.count(old)
                 if n:
                     body = body.replace(old, new)
+                    sig_v = sig_v.replace(old, new)
                 substituted.append({"from": old, "to": new, "occurrences": n})
             for old, new in val.get("subst_re", []):
                 body, n = re.subn(old, new, body)
-                substituted.append({"from_regex": old, "to": new, "occurrences": n})
+                sig_v, n2 = re.subn(old, new, sig_v)
+                substituted.append({"from_regex": old, "to": new, "occurrences": n + n2})
             # (2) hints and loop invariants
             body_lines = body.split("\n")
             lost = []
